@@ -554,3 +554,10 @@ M('height-width-swapped', ['C09', 'C10'], FR, "return None if (shapef := self.__
 M('has_jpg-true-when-unencoded', ['C09', 'C10'], FR, "return None if (jpg := self.__jpg) is None else jpg is not False", "return None if (jpg := self.__jpg) is None else jpg is not None", ['C10.R9', 'C09.R7'])
 M('rw-returns-self-when-readonly', ['C10'], FR, "if (image := self.__image) is None or (image is not False and image.flags.writeable):\n            return self", "if (image := self.__image) is None or (image is not False and not image.flags.writeable):\n            return self", ['C10.R10'])
 M('ro-returns-self-when-writable', ['C10'], FR, "if (image := self.__image) is None or image is False or not image.flags.writeable:\n            return self", "if (image := self.__image) is None or image is False or image.flags.writeable:\n            return self", ['C10.R10'])
+
+# ------------------------------------------------------------------------------------------------------ C18.R5
+M('emit_stop-emits-complete', ['C18'], LN, "        self._emit_event(event_type=RunState.ABORT)", "        self._emit_event(event_type=RunState.COMPLETE)", ['C18.R5'])
+M('heartbeat-emits-start', ['C18'], LN, "                self._emit_event(RunState.RUNNING)", "                self._emit_event(RunState.START)", ['C18.R5'])
+M('event-type-hardwired', ['C18'], LN, "                    eventType=event_type,", "                    eventType=RunState.RUNNING,", ['C18.R5'])
+M('heartbeat-started-twice', ['C18'], LN, "        if self._thread and self._thread.is_alive():\n            return\n        self._stop_event.clear()", "        self._stop_event.clear()", ['C18.R5'])
+M('heartbeat-ignores-stop', ['C18'], LN, "        while not self._stop_event.is_set():\n            with self._lock:", "        while True:\n            with self._lock:", ['C18.R5'])
